@@ -388,11 +388,37 @@ void run(size_t idx) {
 		std::string what = name + " shape '" + sh->name.get() + "' -> " + (mode == 0 ? "same model" : mode == 1 ? "fresh model" : "other model");
 		R_caseDesc(what);
 		int reps = 1 + (int)rng.below(3);
+		// a skeleton with depth: some bones hang below other bones, and the destination already owns the upper ones only
+		std::vector<std::string> upperBones;
+		if (mode != 0 && (idx / 3) % 4 == 1) {
+			std::vector<std::string> bl;
+			s2.GetShapeBoneList(sh, bl);
+			std::vector<NiNode*> bn;
+			std::set<std::string> uniq(bl.begin(), bl.end());
+			bool usable = bl.size() >= 2 && uniq.size() == bl.size();
+			for (auto& b : bl) {
+				auto n = s2.FindBlockByName<NiNode>(b);
+				if (!n || n == s2.GetRootNode() || s2.GetParentNode(n) != s2.GetRootNode()) usable = false;
+				bn.push_back(n);
+			}
+			if (usable) {
+				std::set<std::string> ups;
+				for (size_t k = 1; k < bn.size(); k++)
+					if (rng.below(3) != 0) { size_t par = rng.below((uint32_t)k); s2.SetParentNode(bn[k], bn[par]); ups.insert(bl[par]); }
+				upperBones.assign(ups.begin(), ups.end());
+				if (!upperBones.empty()) { what += fmt(" [nested skeleton; destination already has %zu of the upper bones]", upperBones.size()); R_caseDesc(what); R_stat("clones_from_nested_skeletons_into_partial_ones"); }
+			}
+		}
+		auto prepareDst = [&](NifFile& d) {
+			for (auto& u : upperBones)
+				if (!d.FindBlockByName<NiNode>(u)) d.AddNode(u, MatTransform());
+		};
 		if (mode == 0) cloneCheck(s2, sh, s2, true, what, reps);
 		else if (mode == 1) {
 			NifFile dst;
 			if (idx % 2) { what += " {destination object " + useObject(dst, rng) + "}"; R_caseDesc(what); }
 			dst.Create(s2.GetHeader().GetVersion());
+			prepareDst(dst);
 			cloneCheck(s2, sh, dst, false, what, reps);
 		}
 		else {
@@ -413,6 +439,7 @@ void run(size_t idx) {
 				}
 			}
 			if (!found) continue;
+			prepareDst(dst);
 			cloneCheck(s2, sh, dst, false, what, reps);
 		}
 	}
@@ -422,7 +449,7 @@ void run(size_t idx) {
 MonReg reg({"C14", "exploration",
 			"every shape (up to 4 per model) of the real samples, of API-built models (skinned/unskinned, six versions, with and without model-space-normal shaders and NiTexturingProperty/NiSourceTexture chains) and of synthesised files around each geometry class with populated "
 			"children (properties, controllers, extra data, collision objects, skin blocks) x destination in {same model, fresh model of the same version, another loaded model of the "
-			"same version} x 1..3 repetitions. Oracle: the owned sub-graph below the clone is isomorphic to the source's (same types, canonical payloads equal, every owning slot resolved "
+			"same version} x 1..3 repetitions; a quarter of the clones into other models start from a skeleton with depth (bones re-parented below other bones) while the destination already owns only the upper bones. Oracle: the owned sub-graph below the clone is isomorphic to the source's (same types, canonical payloads equal, every owning slot resolved "
 			"inside the destination, no child shared with the source, back-pointers land on a block of the same kind and name or are dropped); accessor record (geometry, shader, textures, "
 			"skin) equal; bone list names equal and the bones exist; raw save of the source unchanged; destination default-saves and reloads with the clone present and unchanged. Plus, memory safety only: cloning inside models whose node tree repeats names.",
 			[] { return g_models.size() * 3; }, run, 6, 300.0, false, false, init});
